@@ -23,7 +23,7 @@ PROP = 'C19'
 # the spec: full product of attribute values
 
 S_VALS = [None, 'a', 'b']
-I_VALS = [None, 1, -2]
+I_VALS = [None, 1, -2, 2 ** 53]      # 2**53: the first integer whose successor no double represents
 B_VALS = [None, True, False]
 F_VALS = [None, 1.5]
 D_VALS = [None, 'y']          # None -> the schema default "x"
@@ -80,7 +80,8 @@ TYPES = {ns: ['T%s' % ns.capitalize(), 'U%s' % ns.capitalize()] for ns in NAMESP
 
 ATOMS_ALL = [('s', '=', 'a'), ('s', '!=', 'a'), ('s', '=', 'b'), ('s', '=', None), ('s', '!=', None), ('i', '=', 1), ('i', '!=', 1), ('i', '=', -2), ('i', '=', None),
              ('b', '=', True), ('b', '=', False), ('b', '!=', True), ('b', '=', None), ('f', '=', 1.5), ('f', '!=', 1.5), ('f', '=', None), ('d', '=', 'x'), ('d', '!=', 'y'),
-             ('z', '=', None), ('z', '!=', None), ('z', '=', 'a'), ('s', '=', 1), ('i', '=', '1'), ('b', '!=', 'true'), ('f', '=', 2.5), ('i', '=', 7)]
+             ('z', '=', None), ('z', '!=', None), ('z', '=', 'a'), ('s', '=', 1), ('i', '=', '1'), ('b', '!=', 'true'), ('f', '=', 2.5), ('i', '=', 7),
+             ('i', '=', 2 ** 53), ('i', '=', 2 ** 53 + 1), ('i', '!=', 2 ** 53 + 1), ('i', '=', -(2 ** 53) - 1)]
 ATOMS_CORE = [('s', '=', 'a'), ('i', '!=', 1), ('b', '=', True), ('f', '=', None), ('d', '=', 'x'), ('z', '!=', None)]
 
 
